@@ -45,7 +45,7 @@ def build(img, prof, P=None, size_bytes=None):
         doff = (bo + 4 * n + 511) // 512 * 512 + prof["data_gap"]
     if P is None:
         P = n + 1
-    vf, cell, data_offset, size_b = enc_vdi.build(img, block_size=bs, blocks_offset=bo, data_offset=doff, P=P, hdr_kw=prof.get("hdr"))
+    vf, cell, data_offset, size_b = enc_vdi.build(img, block_size=bs, blocks_offset=bo, data_offset=doff, P=P, hdr_kw=prof.get("hdr"), file_id=prof.get("fid", 0))
     if size_bytes is not None:
         size_b = size_bytes
         ents = [img["map"][i] for i in range(n)]
@@ -58,7 +58,7 @@ def build(img, prof, P=None, size_bytes=None):
         pimg = {"n": n, "cb": img["cb"], "map": {i: i for i in range(n)}, "size": img["size"], "parent": False}
         pvf, _, pbase, _ = enc_vdi.build(pimg, block_size=bs, blocks_offset=512, file_id=disk.PARENT_F)
         parent = lambda: _open_vdi(pvf, None)  # noqa: E731
-    return disk.Built(open=lambda: _open_vdi(vf, parent), cell=cell, size=size_b, bases={0: data_offset}, files=[vf],
+    return disk.Built(open=lambda: _open_vdi(vf, parent), cell=cell, size=size_b, bases={0: data_offset}, files=[vf], fids={0: prof.get("fid", 0)},
                       has_parent=bool(img["parent"]), note={k: v for k, v in prof.items() if k != "when"}, parent_base=pbase)
 
 
@@ -78,7 +78,7 @@ def make_trace(tid, rng, nops=30, **opt):
     parent = rng.random() < 0.3
     tail = rng.choice([0, 0, 512, bs // 2, bs - 512])
     img = {"n": n, "cb": 1, "map": {i: mp[i] for i in range(n)}, "size": n, "parent": parent}
-    prof = {"block_size": bs, "blocks_offset": rng.choice([512, 1024, 4096]),
+    prof = {"block_size": bs, "blocks_offset": rng.choice([512, 1024, 4096]), "fid": rng.randrange(0, 0x90),
             "hdr": {"image_type": rng.choice([1, 1, 2, 3, 4]), "flags": rng.choice([0, 0, 1, 2, 0x100, 0x20000]),
                     "uuid_link": bytes(rng.randrange(256) for _ in range(16)), "uuid_parent": bytes(rng.randrange(256) for _ in range(16))}}
     size_b = n * bs - tail
